@@ -1,6 +1,8 @@
 (* K-ignore -- model of the opt-out comment recognisers:
-     core.has_ignore_comment (pyrefact/core.py:886-897): per physical line (str.splitlines), the regex
-         #\s*pyrefact\s*:\s*(skip_file|ignore)   searched in the line, and Range overlap with the line;
+     core.has_ignore_comment (pyrefact/core.py, after repairs 8814bf1 49868ec c213b2e): per physical line
+     (core.split_lines: \n, \r\n, \r only), the regex
+         #\s*pyrefact\s*:\s*(skip_file|ignore)   searched in the line and confirmed by a comment token of
+     the tokenizer on that line, and the line touched by the range (overlap; insertion points);
      the skip_file early return of main.format_code (pyrefact/main.py:167-168, after repair 1e98d6a):
          re.search(r"#\s*pyrefact\s*:\s*skip_file", source)  on the whole text.
    Text = list of Unicode code points (N).  Mirrors the code as it is; no proofs in this file. *)
@@ -18,25 +20,41 @@ Definition space_points : list N :=
    8232; 8233; 8239; 8287; 12288]%N.
 Definition is_space (c : N) : bool := existsb (N.eqb c) space_points.
 
-(* str.splitlines() boundaries: \n \v \f \r \x1c \x1d \x1e \x85 U+2028 U+2029 (and \r\n as one) *)
+(* str.splitlines() boundaries: \n \v \f \r \x1c \x1d \x1e \x85 U+2028 U+2029 (and \r\n as one).
+   This is NOT the line structure of Python source: see split_lines below. *)
 Definition break_points : list N := [10; 11; 12; 13; 28; 29; 30; 133; 8232; 8233]%N.
 Definition is_break (c : N) : bool := existsb (N.eqb c) break_points.
 
-(* source.splitlines(keepends=True); [cur] = current line, reversed *)
-Fixpoint split_lines_aux (cur : text) (s : text) : list text :=
+(* split after every \r\n, after every other \r, and after every other character c with brk c;
+   line terminators kept; [cur] = current line, reversed *)
+Fixpoint split_at (brk : N -> bool) (cur : text) (s : text) : list text :=
   match s with
   | [] => match cur with [] => [] | _ => [rev cur] end
   | c :: tl =>
       if N.eqb c 13 then
         match tl with
-        | d :: tl' => if N.eqb d 10 then rev (d :: c :: cur) :: split_lines_aux [] tl'
-                      else rev (c :: cur) :: split_lines_aux [] tl
+        | d :: tl' => if N.eqb d 10 then rev (d :: c :: cur) :: split_at brk [] tl'
+                      else rev (c :: cur) :: split_at brk [] tl
         | [] => [rev (c :: cur)]
         end
-      else if is_break c then rev (c :: cur) :: split_lines_aux [] tl
-      else split_lines_aux (c :: cur) tl
+      else if brk c then rev (c :: cur) :: split_at brk [] tl
+      else split_at brk (c :: cur) tl
   end.
-Definition split_lines (s : text) : list text := split_lines_aux [] s.
+
+(* source.splitlines(keepends=True): what has_ignore_comment, _do_rewrite, _insert_nodes,
+   _fix_undefined_variables and indentation_level used before repairs 8814bf1..cf76c09 *)
+Definition str_splitlines (s : text) : list text := split_at is_break [] s.
+
+(* core.split_lines (pyrefact/core.py, after repair 8814bf1): re.findall of
+       [^\r\n]*(?:\r\n|\r|\n)|[^\r\n]+
+   = the physical lines of the Python tokenizer (language reference 2.1.2): a line ends at \n, \r\n
+   or \r and nowhere else. *)
+Definition is_eol (c : N) : bool := N.eqb c 10 || N.eqb c 13.
+Definition split_lines (s : text) : list text := split_at (N.eqb 10) [] s.
+
+(* core.strip_line_terminator(line) != line *)
+Definition terminated (l : text) : bool :=
+  match rev l with c :: _ => is_eol c | [] => false end.
 
 (* ---- the regex, hand-translated: no backtracking is needed because every \s* is followed by a
         literal that is not a space (proved equivalent to the declarative reading in IgnoreProofs.v) *)
@@ -90,10 +108,30 @@ Fixpoint line_ranges (pos : Z) (ls : list text) : list (range * text) :=
   | l :: tl => let e := (pos + Z.of_nat (length l))%Z in ((pos, e), l) :: line_ranges e tl
   end.
 
-Definition ignore_ranges (src : text) : list range :=
-  map fst (filter (fun p => ignore_line (snd p)) (line_ranges 0 (split_lines src))).
+(* The tokenizer's verdict (core._ignore_comment_linenos, after repair c213b2e): the zero-based numbers
+   of the physical lines that carry a COMMENT token matching the regex; None when CPython's tokenize
+   raises on the source (then every line whose text matches counts).  The tokenizer itself is not
+   modelled: it is an input of the model, supplied by CPython in the correspondence. *)
+Definition comment_ok (coms : option (list nat)) (i : nat) : bool :=
+  match coms with None => true | Some cs => existsb (Nat.eqb i) cs end.
 
-Definition has_ignore (src : text) (r : range) : bool := ignored (ignore_ranges src) r.
+(* the lines that protect: (range, text) *)
+Definition ignore_entries (src : text) (coms : option (list nat)) : list (range * text) :=
+  let tbl := line_ranges 0 (split_lines src) in
+  map snd (filter (fun e => ignore_line (snd (snd e)) && comment_ok coms (fst e))
+                  (combine (seq 0 (length tbl)) tbl)).
+
+(* does the rewrite range r touch the line [ls, le)?  A non-empty range: Range.overlaps.  An empty
+   range (an insertion, after repair 49868ec): anywhere from the first column of the line up to its
+   terminator; at the very end of an unterminated last line too. *)
+Definition touches (r : range) (e : range * text) : bool :=
+  let '(ls, le) := fst e in
+  if (fst r =? snd r)%Z
+  then ((ls <=? fst r) && (fst r <? le))%Z || ((fst r =? le)%Z && negb (terminated (snd e)))
+  else overlaps r (ls, le).
+
+Definition has_ignore (src : text) (coms : option (list nat)) (r : range) : bool :=
+  existsb (touches r) (ignore_entries src coms).
 
 (* ---- format_code's first statement: the file is handed back untouched ---- *)
 Definition format_code_head (rest : text -> text) (src : text) : text :=
@@ -113,11 +151,13 @@ Fixpoint lines_eqb (a b : list text) : bool :=
   | _, _ => false
   end.
 
-(* (source, expected splitlines, expected per-line regex verdicts, expected skip verdict,
-    list of (range, expected has_ignore_comment)) *)
+(* (source, tokenizer verdict, expected core.split_lines, expected str.splitlines, expected per-line
+    has_ignore_comment verdicts, expected skip verdict, list of (range, expected has_ignore_comment)) *)
 Record ign_case := mkIgn {
   ic_src : text;
+  ic_coms : option (list nat);
   ic_lines : list text;
+  ic_strlines : list text;
   ic_line_verdicts : list bool;
   ic_skip : bool;
   ic_ranges : list (range * bool)
@@ -128,8 +168,12 @@ Fixpoint bools_eq (a b : list bool) : bool :=
   | x :: a', y :: b' => Bool.eqb x y && bools_eq a' b'
   | _, _ => false
   end.
+Definition line_verdicts (src : text) (coms : option (list nat)) : list bool :=
+  let tbl := line_ranges 0 (split_lines src) in
+  map (fun e => ignore_line (snd (snd e)) && comment_ok coms (fst e)) (combine (seq 0 (length tbl)) tbl).
 Definition ign_case_ok (c : ign_case) : bool :=
   lines_eqb (split_lines (ic_src c)) (ic_lines c)
-  && bools_eq (map ignore_line (split_lines (ic_src c))) (ic_line_verdicts c)
+  && lines_eqb (str_splitlines (ic_src c)) (ic_strlines c)
+  && bools_eq (line_verdicts (ic_src c) (ic_coms c)) (ic_line_verdicts c)
   && Bool.eqb (skip_search (ic_src c)) (ic_skip c)
-  && forallb (fun p => Bool.eqb (has_ignore (ic_src c) (fst p)) (snd p)) (ic_ranges c).
+  && forallb (fun p => Bool.eqb (has_ignore (ic_src c) (ic_coms c) (fst p)) (snd p)) (ic_ranges c).
